@@ -66,7 +66,8 @@ Theorem lock_model_shape_table : table_has_proto_shape l_access_lock l_lru_mutex
 Print Assumptions lock_model_shape_table.
 
 (* and the sections do what the model lets them do: a section under access_lock Shared alone only reads; the section under
-   access_lock Shared + lru_mutex writes nothing but lru / c.lru (the LRU move); outside every lock only reads; every other
+   access_lock Shared + lru_mutex writes nothing but lru / c.lru (the LRU move; since /repo 117bb4c - one list splice - it writes
+   lru only, c.lru is only read; the check admits both forms); outside every lock only reads; every other
    section holds access_lock exclusively *)
 Theorem reader_sections_table : reader_sections_ok l_access_lock l_lru_mutex f_lru f_c_lru Gen_locktab.table = true. Proof. vm_compute. reflexivity. Qed.
 Print Assumptions reader_sections_table.
@@ -324,13 +325,13 @@ Qed.
    really reaches a configuration with a race (two fetches both standing at the write of lru) *)
 Definition bad_fetch : scope :=
   Scope None [(f_access_lock, Rd)]
-    [Scope (Some (l_access_lock, Shared)) [(f_c_data, Rd); (f_primary, Rd); (f_c_lru, Rd); (f_c_lru, Wr); (f_lru, Rd); (f_lru, Wr)] []].
+    [Scope (Some (l_access_lock, Shared)) [(f_c_data, Rd); (f_primary, Rd); (f_c_lru, Rd); (f_lru, Rd); (f_lru, Wr)] []].
 Definition bad_table : list (string * scope) := [("fetch"%string, bad_fetch)].
 Example race_free_detects_nonvacuous :
   race_free bad_table = false /\ exists c, reachable bad_table c /\ race c.
 Proof.
   split; [vm_compute; reflexivity|].
-  pose (k1 := Scope (Some (l_access_lock, Shared)) [(f_c_data, Rd); (f_primary, Rd); (f_c_lru, Rd); (f_c_lru, Wr); (f_lru, Rd); (f_lru, Wr)] []).
+  pose (k1 := Scope (Some (l_access_lock, Shared)) [(f_c_data, Rd); (f_primary, Rd); (f_c_lru, Rd); (f_lru, Rd); (f_lru, Wr)] []).
   pose (f0 := mkframe [] bad_fetch).
   pose (c1 := upd init 0 [f0]).
   pose (c2 := upd c1 0 (mkframe (fheld f0) k1 :: mkF (fheld f0) (faccs f0) [] :: [])).
